@@ -111,23 +111,34 @@ def check_tables(ctx: Ctx) -> None:
     singles = [recs[n] for n in ("SINGLE_JINJA_TAG", "SINGLE_JINJA_COMMENT", "SINGLE_JINJA_VAR", "SINGLE_HTML_COMMENT") if n in recs]
     paireds = [recs[n] for n in ("PAIRED_JINJA_TAG", "PAIRED_JINJA_COMMENT", "PAIRED_JINJA_VAR", "PAIRED_HTML_COMMENT") if n in recs]
     ctx.require("R-ATOMIC", "single/paired tag families", len(singles) + len(paireds), 4)
+    from .. import anchors
+
     expect_map = {
         "TEMPLATE_TAG_PATTERN": ("|".join(str(r.fields["pattern"]) for r in singles), re.DOTALL),
         "PAIRED_TAGS_PATTERN": ("|".join(str(r.fields["pattern"]) for r in paireds), re.DOTALL),
-        "_adjacent_tags_re": ("|".join(f"({r.fields['close_re']})({r.fields['open_re']})" for r in singles), 0),
-        "_denormalize_tags_re": ("|".join(f"({r.fields['close_re']}) ({r.fields['open_re']})" for r in singles), 0),
+        # the two private patterns, found as what the public normalize / denormalize functions substitute with
+        anchors.sub_pattern_of(ctx, f"{TH}:normalize_adjacent_tags"): ("|".join(f"({r.fields['close_re']})({r.fields['open_re']})" for r in singles), 0),
+        anchors.sub_pattern_of(ctx, f"{TH}:denormalize_adjacent_tags"): ("|".join(f"({r.fields['close_re']}) ({r.fields['open_re']})" for r in singles), 0),
     }
+    labels = {anchors.sub_pattern_of(ctx, f"{TH}:normalize_adjacent_tags"): f"{TH} :: adjacent-tags pattern (normalize)",
+              anchors.sub_pattern_of(ctx, f"{TH}:denormalize_adjacent_tags"): f"{TH} :: adjacent-tags pattern (denormalize)"}
     for name, (pat, fl) in expect_map.items():
+        cq = name if ":" in name else f"{TH}:{name}"
         try:
-            v = folder.const(f"{TH}:{name}")
+            v = folder.const(cq)
         except Unknown as e:
-            raise AnalysisError(f"{TH}:{name}: {e}") from e
+            raise AnalysisError(f"{cq}: {e}") from e
         ok = isinstance(v, RegexConst) and v.pattern == pat and (v.flags & fl) == fl
-        ctx.ob("R-ATOMIC-derived", f"{TH}:{name}", ok,
-               "must be built from all four tag families ({% %}, {# #}, {{ }}, <!-- -->) of the atomic pattern table", _where_const(ctx, th, name))
+        ctx.ob("R-ATOMIC-derived", labels.get(name, cq), ok,
+               "must be built from all four tag families ({% %}, {# #}, {{ }}, <!-- -->) of the atomic pattern table", _where_const(ctx, th, cq.partition(":")[2]))
     # _is_closing_tag literals = open_delim + " /" for each family
-    ict = repo.func(f"{TH}:_is_closing_tag")
-    lits = sorted(_affix_tests(ctx, folder, ict)["startswith"])
+    ict = anchors.closing_tag_predicate(ctx)
+    if ict is None:
+        raise AnalysisError("anchor vanished: the closing-tag predicate of tag_handling (a one-parameter function testing `<open delimiter> /` prefixes)")
+    # (the prefixes tested in that function itself; when the predicate is written out inside the spacing fix, its other
+    # prefix tests - block-content markers - are not closing-tag spellings)
+    direct = _affix_tests(ctx, folder, ict, depth=3)["startswith"]
+    lits = sorted(s_ for s_ in direct if s_.endswith("/")) or sorted(_affix_tests(ctx, folder, ict)["startswith"])
     want = sorted(str(r.fields["open_delim"]) + " /" for r in singles)
     ctx.ob("R-ATOMIC-derived", f"{ict.qual} :: closing-tag spellings", lits == want,
            f"a closing tag is `<open delimiter> /...` for each of the four families: expected {want}, found {lits}", where(ict, ict.node))
@@ -136,8 +147,8 @@ def check_tables(ctx: Ctx) -> None:
     # module constants and helper predicates - not on how the comparison is spelled)
     opens = {str(r.fields["open_delim"]) for r in singles}
     closes = {str(r.fields["close_delim"]) for r in singles}
-    for fn, need_open, need_close in (("line_ends_with_tag", False, True), ("line_starts_with_tag", True, False), ("_is_tag_only_line", True, True)):
-        f = repo.func(f"{TH}:{fn}")
+    for fn, need_open, need_close in (("line_ends_with_tag", False, True), ("line_starts_with_tag", True, False), (None, True, True)):
+        f = repo.func(f"{TH}:{fn}") if fn else anchors.tag_only_line_predicate(ctx)
         got = _affix_tests(ctx, folder, f)
         ok = (not need_open or opens <= got["startswith"]) and (not need_close or closes <= got["endswith"])
         ctx.ob("R-ATOMIC-derived", f"{f.qual} :: all four tag families", ok,
@@ -253,13 +264,14 @@ def check_continuation_test(ctx: Ctx) -> None:
     line. Whether a line itself starts a tag is a question about the tag openers after its indentation - an indented line that
     starts with a paired tag (inside a list item) is not a continuation."""
     repo, prog = ctx.repo, ctx.prog
-    fm = repo.func(f"{TH}:_fix_multiline_opening_tag_with_closing")
+    from .. import anchors
+
+    fm = anchors.multiline_tag_fix(ctx)
     flow = prog.flow(fm)
     folder, recs, _t = _records(ctx)
     opens = {str(r.fields["open_delim"]) for n, r in recs.items() if n.startswith("SINGLE_") and r.fields.get("open_delim")}
     searches = [n for n, c in flow.all_calls() if isinstance(c.func, ast.Attribute) and c.func.attr in ("search", "match", "finditer")
-                and isinstance(ctx.repo.resolve_expr(c.func.value, fm.module, fm), ConstInfo)
-                and "multiline" in ctx.repo.resolve_expr(c.func.value, fm.module, fm).name]  # type: ignore[union-attr]
+                and isinstance(ctx.repo.resolve_expr(c.func.value, fm.module, fm), ConstInfo)]
     for sn in searches:
         from .common import guard_atoms
 
@@ -295,8 +307,10 @@ def check_post_passes(ctx: Ctx) -> None:
     fac = repo.func(f"{TH}:add_tag_newline_handling")
     w = factory_closure(prog, fac)
     flow = prog.flow(w)
-    fm_q = f"{TH}:_fix_multiline_opening_tag_with_closing"
-    fc_q = f"{TH}:_fix_closing_tag_spacing"
+    from .. import anchors
+
+    fm_q = anchors.multiline_tag_fix(ctx).qual
+    fc_q = anchors.closing_tag_spacing_fix(ctx).qual
     rets = flow.cfg.returns()
     ctx.require("R-ATOMIC-post", "returns of the tag newline handler", len(rets), 1)
     from .common import reachable_functions as _reach
@@ -308,9 +322,12 @@ def check_post_passes(ctx: Ctx) -> None:
         ctx.ob("R-ATOMIC-post", f"{w.qual} :: {norm(r.ast)} passes the multi-line tag fix", org == frozenset({("call", fm_q)}),
                "every result of the handler must go through _fix_multiline_opening_tag_with_closing; it is " + ", ".join(str(o[1]) for o in org),
                where(w, r))
-    # the multi-segment join passes the closing-tag fix
+    # the multi-segment join passes the closing-tag fix (the join of the list the handler appends its segments to)
+    appended = {c.func.value.id for _n, c in flow.all_calls() if isinstance(c.func, ast.Attribute) and c.func.attr in ("append", "extend")
+                and isinstance(c.func.value, ast.Name)}
     joins = [n for n in flow.cfg.nodes if n.kind == "stmt" and isinstance(n.ast, ast.Assign) and isinstance(n.ast.value, ast.Call)
-             and isinstance(n.ast.value.func, ast.Attribute) and n.ast.value.func.attr == "join" and "result_parts" in norm(n.ast.value)]
+             and isinstance(n.ast.value.func, ast.Attribute) and n.ast.value.func.attr == "join" and len(n.ast.value.args) == 1
+             and isinstance(n.ast.value.args[0], ast.Name) and n.ast.value.args[0].id in appended]
     fcs = [n for n, c in flow.all_calls() if call_name(prog, w, c) == fc_q]
     for j in joins:
         ok = bool(fcs) and all(flow.cfg.path_avoiding(j, r, set(fcs)) is None for r in rets if flow.cfg.path_avoiding(j, r, set()) is not None)
